@@ -104,7 +104,25 @@ func TestC07HugeCandidate(t *testing.T) {
 						others = append(others, tips[u])
 					}
 				}
-				// Build on the dirty instance must still agree with the reference
+				// Build on the dirty instance must still agree with the reference: for the event that is created next
+				// and for the candidates every other validator could create at this moment
+				for pc := 0; pc < 5; pc++ {
+					if pc == c {
+						continue
+					}
+					var po []int
+					for u := 0; u < 5; u++ {
+						if u != pc && tips[u] >= 0 {
+							po = append(po, tips[u])
+						}
+					}
+					probe := ref.Prepare(graphref.Proto{Creator: pc, SelfParent: tips[pc], Others: po, Salt: uint32(20000 + len(ref.Evs)*8 + pc)})
+					_, ph := ref.Allowed(probe)
+					pm := ref.DagEvent(probe, 0)
+					if err := dirty.L.Build(pm); err != nil || uint32(pm.Frame()) != ph {
+						t.Fatalf("dirty instance: Build(candidate of v%d over all tips, after e%d) = frame %d, %v; reference %d", pc, len(ref.Evs)-1, pm.Frame(), err, ph)
+					}
+				}
 				cand := ref.Prepare(graphref.Proto{Creator: c, SelfParent: tips[c], Others: others, Salt: uint32(len(ref.Evs))})
 				_, hi := ref.Allowed(cand)
 				mb := ref.DagEvent(cand, 0)
